@@ -116,6 +116,38 @@ package collections
 //@   modifies p.qin[el], p.qlen, p.qtop, PQItem.index
 //@   ensures !p.qin[el] && p.qlen == old(p.qlen) - 1 && p.qlen >= 0
 
+// ---- pqImpl: the heap.Interface the queue hands to container/heap (proved) ----
+// container/heap is correct for any sort.Interface + Push/Pop that behave as documented: Less a strict weak order that
+// only reads, Swap exchanging two positions and nothing else. These contracts say so for pqImpl, together with the
+// bookkeeping the wrapper relies on (an item's index field is its position in the heap).
+//@ func (pqImpl).Len
+//@   props C03 C13 C14
+//@   modifies nothing
+//@   ensures number_of_items: result == len(mh)
+//@ func (pqImpl).Less
+//@   props C03 C13 C14
+//@   requires 0 <= i && i < len(mh) && 0 <= j && j < len(mh) && mh[i] != nil && mh[j] != nil
+//@   modifies nothing
+//@   ensures earlier_expiry_first: result == (mh[i].Priority < mh[j].Priority)
+//@ func (pqImpl).Swap
+//@   props C03 C13 C14
+//@   requires 0 <= i && i < len(mh) && 0 <= j && j < len(mh) && mh[i] != nil && mh[j] != nil && (i != j ==> mh[i] != mh[j])
+//@   modifies mh[i], mh[j], mh[i].index, mh[j].index
+//@   ensures exchanged: mh[i] == old(mh[j]) && mh[j] == old(mh[i])
+//@   ensures index_is_position: mh[i].index == i && mh[j].index == j
+//@ func (*pqImpl).Push
+//@   props C03 C13 C14
+//@   requires mh != nil && tagof(x) == typeid("*PQItem") && asref(payload(x), "*PQItem") != nil
+//@   modifies *mh, asref(payload(x), "*PQItem").index, elems(*mh)
+//@   ensures appended: len(*mh) == old(len(*mh)) + 1 && (*mh)[old(len(*mh))] == asref(payload(x), "*PQItem") && (forall k int :: 0 <= k && k < old(len(*mh)) ==> (*mh)[k] == old((*mh)[k]))
+//@   ensures index_is_position: asref(payload(x), "*PQItem").index == old(len(*mh))
+//@ func (*pqImpl).Pop
+//@   props C03 C13 C14
+//@   requires mh != nil && len(*mh) >= 1 && (*mh)[len(*mh) - 1] != nil
+//@   modifies *mh, (*mh)[len(*mh) - 1].index
+//@   ensures last_removed: len(*mh) == old(len(*mh)) - 1 && (forall k int :: 0 <= k && k < len(*mh) ==> (*mh)[k] == old((*mh)[k]))
+//@   ensures returned_item_marked_out: tagof(result) == typeid("*PQItem") && asref(payload(result), "*PQItem") == old((*mh)[len(*mh) - 1]) && asref(payload(result), "*PQItem").index == -1
+
 // ---- TTLMap ----
 
 //@ func NewTTLMap
